@@ -141,6 +141,14 @@ pub fn c02_prop(model: &Model, ix: &Index, ex: &Exec, tape: &[u32], st: &mut Sta
     cfg.p_trailing_semicolon = 3;
     cfg.p_empty_message = 2;
     cfg.lit.max_payload = 4;
+    // now and then payloads with newlines: through process the message is then executed piecewise and
+    // the path has to survive the restart
+    cfg.lit.newlines = t.chance(1, 4);
+    if cfg.lit.newlines {
+        // ... in messages without deliberately undefined headers: how much of a *faulty* message with
+        // a newline inside a payload is discarded is outside the statements (C06 excludes it)
+        cfg.w_unit[3] = 0;
+    }
     let env = Env::new(model, ex.qcap);
     let n_msgs = t.range(1, 4);
     let msgs: Vec<Message> = (0..n_msgs).map(|_| gen::gen_message(&mut t, ix, &cfg)).collect();
